@@ -603,7 +603,9 @@ def parseWith (g : Grammar) (d : Dec) (kind : ParserKind) (prior : List Int) (s 
   let doc := if kind == .omni then omniPrepass s else s
   let (toks, tail) := lexAll g d doc
   let c : PCfg := ⟨g, d, kind, doc⟩
-  let st : PSt := ⟨⟨toks, tail, none, none, false⟩, prior, [], none, false⟩
+  -- `self.errors = []` at the top of `parse()`: whatever an earlier call left is discarded
+  let _ := prior
+  let st : PSt := ⟨⟨toks, tail, none, none, false⟩, [], [], none, false⟩
   let (r, st') := (P.moduleLoop c [] (fuelFor (toks.length + 2))).run.run st
   ⟨r, st'.errors, st'.sites⟩
 
